@@ -319,6 +319,16 @@ class C20(Prop):
         for _ in range(budget(tier, 300, 5000)):
             k = keyform(r.sample(extras, r.randint(5, 12)))
             for o in ('lex', 'len'): ops.append(mk('canon %s %s' % (o, k), k='canon', order=o))
+        # many extra parameters with labels of mixed encoded lengths (sorting algorithms change strategy with the size:
+        # insertion sort below ~20 elements, quicksort / merge runs above; an unstable or partial sort only shows on long lists)
+        pool = ['i%d' % i for i in list(range(6, 24)) + list(range(24, 64)) + [255, 256, 257, 1000, 65535, 65536, 70000, 2**32 - 1, 2**32, 2**40]] \
+            + ['i%d' % i for i in list(range(-24, 0)) + list(range(-64, -24)) + [-256, -257, -1000, -65536, -65537, -2**32, -2**32 - 1]] \
+            + ['t' + bytes([c]).hex() for c in range(0x61, 0x7b)] + ['t' + bytes([c, d]).hex() for c in (0x61, 0x62, 0x7a) for d in (0x61, 0x6d, 0x7a)] \
+            + ['t' + (bytes([c]) * 3).hex() for c in range(0x61, 0x67)] + ['tc3a9', 'te282ac', 'tf09f9880']
+        for n in (13, 20, 21, 32, 33, 34, 40, 50, 64, 65, 100, 150) + ((200,) if tier == 'quick' else (200, 300)):
+            for _ in range(budget(tier, 3, 12)):
+                k = keyform(r.sample(pool, min(n, len(pool))))
+                for o in ('lex', 'len'): ops.append(mk('canon %s %s' % (o, k), k='canon', order=o, many=n))
         return ops
     def followups(self, ops, impl):
         """second pass: encode the canonicalised key, canonicalise again, chain"""
